@@ -271,8 +271,8 @@ Lemma serialize_represents dt shape xs r :
 Proof.
   intros HLg HR. destruct (numpy_bytes_agree dt shape xs r HLg HR) as [_ B]. unfold good_bytes in B.
   destruct (represents_meta dt shape xs r HR) as [Ed Es].
-  destruct r as [dt0 sh0 st0 | dt0 sh0 st0 | dt0 sh0 raw0 | p0 | dt0 sh0 f0 o0 l0 | dt0 sh0 inner0]; try exact I.
-  4: { exists p0. split; [reflexivity | exact HR]. }
+  destruct r as [dt0 sh0 st0 | dt0 sh0 st0 | dt0 sh0 st0 | dt0 sh0 raw0 | p0 | dt0 sh0 f0 o0 l0 | dt0 sh0 inner0]; try exact I.
+  5: { exists p0. split; [reflexivity | exact HR]. }
   all: unfold serialize; rewrite B; cbn [res_bind]; eexists; split; [reflexivity|];
        rewrite Ed, Es; apply rep_proto_raw.
 Qed.
@@ -390,4 +390,17 @@ Lemma strings_agree shape ss :
 Proof.
   split; [| reflexivity]. intros r Hr. simpl in Hr.
   destruct Hr as [<-|[<-|[<-|[]]]]; split; reflexivity.
+Qed.
+
+(* ------------------------------------------------------------------ lazily conjugated torch views (known finding) *)
+
+(* numpy() of the adapter resolves the conjugation, tobytes() does not: the representation disagrees with itself *)
+Lemma torch_conj_refuted :
+  exists dt shape storage xs,
+    logical dt shape xs /\ r_numpy (RTorchConj dt shape storage) = Ok xs
+    /\ r_tobytes (RTorchConj dt shape storage) <> Ok (le_pack dt xs).
+Proof.
+  exists DT_COMPLEX64, [1], [1 + 2 ^ 32 * 2], [1 + 2 ^ 32 * 2 + 2 ^ 63].
+  split; [exists 64; split; [reflexivity|]; split; [repeat constructor | reflexivity] |].
+  split; [vm_compute; reflexivity | vm_compute; discriminate].
 Qed.
